@@ -28,6 +28,11 @@ type schedSpec struct {
 	MinTokens int           // reference lower bound (startup profiles)
 	Dur       time.Duration // total duration
 	Offs      []time.Duration
+	// C04 only: token offsets of the finite parts by the independent reference (verifsim/ref), their total duration,
+	// and the duration of an `unlimited` part appended after them (0: none)
+	RefOffs   []time.Duration
+	FiniteDur time.Duration
+	Tail      time.Duration
 }
 
 func decodeSchedule(conf interface{}) (core.Schedule, error) {
